@@ -25,8 +25,7 @@ Record BInv (g : bstate) : Prop := {
   k_live : 1 <= handles g -> freed (sh g) = 0 /\ n_at BFree g = 0;
   k_dead : handles g = 0 -> freed (sh g) + n_at BFree g = 1;
   k_uaf : b2n (uaf (sh g)) = 0;
-  k_own : forall t l, at_ g t l ->
-          (bpc_of l = BGet \/ bpc_of l = BAccess \/ bpc_of l = BDropLoan) -> 1 <= loans l
+  k_own : forall t l, at_ g t l -> needs_loan (bpc_of l) = true -> 1 <= loans l
 }.
 
 Lemma sumf_repeat {A} (f : A -> nat) x n : f x = 0 -> sumf f (repeat x n) = 0.
@@ -41,7 +40,7 @@ Proof.
   pose proof (Z (is_pc BFree) eq_refl) as Z4.
   constructor; unfold handles, n_at, n_loans; rewrite ?Z0, ?Z1, ?Z2, ?Z3, ?Z4;
     cbn [binit sh state lown llive borrows freed uaf b2n]; auto; try lia; try discriminate.
-  intros t l H. apply nth_error_In in H. apply repeat_spec in H. subst. cbn. intros [H|[H|H]]; discriminate.
+  intros t l H. apply nth_error_In in H. apply repeat_spec in H. subst. cbn. discriminate.
 Qed.
 
 Theorem bstep_preserves g e g' : BInv g -> bgstep e g = Some g' -> BInv g'.
@@ -71,14 +70,14 @@ Proof.
     repeat (destr_if_in Hst; try discriminate); inv Hst;
     repeat match goal with E : (1 <=? _) = true |- _ => apply Nat.leb_le in E end;
     cbn [is_pc bpc_of loans uaf freed] in *;
-    try (assert (1 <= n) by (first [apply Kown; auto | lia]));
+    try (assert (1 <= n) by (first [apply Kown; reflexivity | lia]));
     repeat match goal with b : bool |- _ => destruct b end; cbn [b2n Bool.eqb andb orb] in *; try discriminate;
     try (assert (fr = 0) by lia; subst fr; cbn [Nat.ltb Nat.leb orb b2n] in * );
     (constructor; unfold handles, n_at, n_loans; cbn [sh th state lown llive borrows freed uaf b2n];
      [ try lia | try (intros; lia) | try lia | try (intros; lia) | try (intros; lia) | try (intros; lia) | try (intros; lia) | try reflexivity; try lia
      | let t0 := fresh "t0" in let x := fresh "x" in let H := fresh "H" in let Hp := fresh "Hp" in
        intros t0 x H Hp; apply Hafter in H; destruct H as [[? ?]|[? H]];
-       [ subst; cbn [bpc_of loans] in *; first [lia | destruct Hp as [Hp|[Hp|Hp]]; discriminate | idtac]
+       [ subst; cbn [bpc_of loans] in *; first [lia | discriminate | idtac]
        | eapply K9; eauto ] ]).
 Qed.
 
@@ -210,7 +209,7 @@ Proof.
     assert (Hpcs : forall p, bpc_of l = p -> is_pc p l = 1) by (intros p <-; unfold is_pc; destruct (bpc_of l); reflexivity).
     destruct (bpc_of l) eqn:Hpc; try congruence;
       try (rewrite (Hpcs _ eq_refl) in G1); try (rewrite (Hpcs _ eq_refl) in G2); try (rewrite (Hpcs _ eq_refl) in G3);
-      try (assert (1 <= loans l) by (apply Kown; auto));
+      try (assert (1 <= loans l) by (apply Kown; rewrite Hpc; reflexivity));
       destruct (b2n_cases (lown (sh g))) as [[_ E1]|[_ E1]], (b2n_cases (llive (sh g))) as [[_ E2]|[_ E2]];
       rewrite ?E1, ?E2 in *; lia.
   - intros [H0 Hq]. specialize (K7 H0).
